@@ -302,6 +302,61 @@ class _DropAnn(ast.NodeTransformer):
             return new
         return n
 
+    def visit_Match(self, n):
+        # match subject: case "a": A  case "b" | "c": B  case _: C   ->   if subject == "a": A  elif subject in ("b", "c"): B  else: C
+        # (value, singleton and wildcard patterns only; anything that binds or destructures stays a `match`)
+        self.generic_visit(n)
+        if self.depth == 0:
+            return n
+        import copy as _copy
+
+        def tests(pat, subj):
+            if isinstance(pat, ast.MatchValue):
+                return ast.Compare(_copy.deepcopy(subj), [ast.Eq()], [pat.value])
+            if isinstance(pat, ast.MatchSingleton):
+                return ast.Compare(_copy.deepcopy(subj), [ast.Is()], [ast.Constant(pat.value)])
+            if isinstance(pat, ast.MatchOr):
+                parts = [tests(p_, subj) for p_ in pat.patterns]
+                if any(p_ is None for p_ in parts):
+                    return None
+                if all(isinstance(p_, ast.MatchValue) for p_ in pat.patterns):
+                    return ast.Compare(_copy.deepcopy(subj), [ast.In()], [ast.Tuple([p_.value for p_ in pat.patterns], ast.Load())])
+                return ast.BoolOp(ast.Or(), parts)
+            if isinstance(pat, ast.MatchAs) and pat.pattern is None and pat.name is None:
+                return True
+            return None
+        pre = []
+        subj = n.subject
+        if not isinstance(subj, (ast.Name, ast.Constant)) and not (isinstance(subj, ast.Attribute) and isinstance(subj.value, ast.Name)):
+            self.mn = getattr(self, "mn", 0) + 1
+            tmp = f"_m{self.mn}"
+            pre = [ast.copy_location(ast.Assign([ast.Name(tmp, ast.Store())], subj), n)]
+            subj = ast.Name(tmp, ast.Load())
+        chain = []
+        for c in n.cases:
+            t = tests(c.pattern, subj)
+            if t is None:
+                return n
+            if c.guard is not None:
+                t = c.guard if t is True else ast.BoolOp(ast.And(), [t, c.guard])
+            chain.append((t, c.body))
+        node = None
+        for t, body in reversed(chain):
+            if t is True:
+                node = body
+            else:
+                node = [ast.If(t, body, node or [])]
+        if node is None:
+            return n
+        out = pre + node
+        for st in out:
+            ast.copy_location(st, n)
+            for y in ast.walk(st):
+                if not hasattr(y, "lineno"):
+                    ast.copy_location(y, n)
+            ast.fix_missing_locations(st)
+        return out
+
     def visit_ClassDef(self, n):
         d, self.depth = self.depth, 0
         self.generic_visit(n)
